@@ -50,50 +50,9 @@ Theorem C04_valid_reader_accepted : forall s le g,
 Proof. exact accepted_struct. Qed.
 Print Assumptions C04_valid_reader_accepted.
 
-(* C04_valid_reader_tamper_text.  A written text that Read + Validate accept; one digit of one
-   protected column (entry amount, RDFI, check digit; batch control class / count / hash / totals /
-   ODFI / number; batch header ODFI / number; file control batch count / entry count / hash / totals:
-   the 46 rows of protected_columns) of one of its lines replaced by another digit: Read + Validate
-   do not accept the tampered text — as the original or as anything else.
-   PARTIAL in one respect: the last three hypotheses (the tampered lines are still a typed structured
-   file of 94-character lines on which the two readers agree) are stated, not derived; they are
-   facts about ONE changed character behind column 0 and are checked by computation in the examples.
-   The missing lemma is
-     file_typed s -> utf8_records s -> bridge_okb LT s -> 1 <= col -> is_digit d ->
-     (the site is a batch header -> 53 <= col) ->
-     file_typed (tamper s site col d) /\ utf8_records (tamper s site col d) /\ bridge_okb LT (tamper s site col d).
-   Side conditions as in C04_tamper_text_line_rejected (batch_regular: IAT / ADV batches without
-   foreign accounting codes, routing numbers stored as 8 digits; numeric column below max_int64). *)
-Theorem C04_valid_reader_tamper_text_partial : forall s le g0 site p line j d,
-  le_ok le -> file_typed s = true -> utf8_records s -> bridge_okb LT s = true ->
-  accepts LT RT AT (write le s) = Some g0 ->
-  Forall (batch_regular AT) (all_batches (skel s)) ->
-  In p protected_columns -> site_class s site = Some (p_class p) -> site_line s site = Some line ->
-  wf_utf8 line = true -> rune_count line = 94 ->
-  j < p_hi p - p_lo p -> is_digit d = true ->
-  digitsb (column line (p_lo p) (p_hi p)) = true ->
-  nth j (column line (p_lo p) (p_hi p)) 0%N <> d ->
-  (p_kind p = CKNum -> (digits_val (column line (p_lo p) (p_hi p)) 0 < max_int64)%Z) ->
-  let s' := tamper s site (p_lo p + j) d in
-  file_typed s' = true -> utf8_records s' -> bridge_okb LT s' = true ->
-  accepts LT RT AT (write le s') = None.
-Proof. exact c04_valid_reader_tamper_text_line. Qed.
-Print Assumptions C04_valid_reader_tamper_text_partial.
-
-(* ... the line written through its layout from a record that fits (String() of the record) *)
-Theorem C04_valid_reader_tamper_text_rendered_partial : forall s le g0 site p r j d,
-  le_ok le -> file_typed s = true -> utf8_records s -> bridge_okb LT s = true ->
-  accepts LT RT AT (write le s) = Some g0 ->
-  Forall (batch_regular AT) (all_batches (skel s)) ->
-  In p protected_columns -> site_class s site = Some (p_class p) ->
-  site_line s site = Some (render (p_layout p) r) -> fitsb (p_layout p) r = true -> col_value_ok p r ->
-  j < p_hi p - p_lo p -> is_digit d = true ->
-  nth j (column (render (p_layout p) r) (p_lo p) (p_hi p)) 0%N <> d ->
-  let s' := tamper s site (p_lo p + j) d in
-  file_typed s' = true -> utf8_records s' -> bridge_okb LT s' = true ->
-  accepts LT RT AT (write le s') = None.
-Proof. exact c04_valid_reader_tamper_text_rendered. Qed.
-Print Assumptions C04_valid_reader_tamper_text_rendered_partial.
+(* C04_valid_reader_tamper_text / C04_valid_reader_tamper_text_rendered: since phase 7 in
+   Props/C04ValidTextFull.v, WITHOUT the three hypotheses about the tampered lines that the phase-6
+   statements (…_partial, removed here: they were instances of the full theorems) carried. *)
 
 (* a text without a file control line ('9', not starting "99") is never accepted *)
 Theorem C04_valid_reader_needs_control : forall text ls,
@@ -111,20 +70,10 @@ Theorem C04_valid_reader_truncation_before_control : forall s le k,
 Proof. exact c04_valid_reader_truncation_before_ctl. Qed.
 Print Assumptions C04_valid_reader_truncation_before_control.
 
-(* second part: a proper prefix (any byte offset) of an accepted written text that Read + Validate
-   accept is accepted as a file with exactly the protected values of the original.
-   PARTIAL: for prefixes the structural reader reads at all; the missing lemma is
-     read_text (firstn k (write le s)) = None -> accepts LT RT AT (firstn k (write le s)) = None
-   (two cases behind the start of the control record: the cut control record spills into a second
-   line of U+FFFD characters; a filler line cut after its first character is a second control record) *)
-Theorem C04_valid_reader_truncation_partial : forall s le k g0 g,
-  le_ok le -> file_typed s = true -> utf8_records s -> bridge_okb LT s = true ->
-  accepts LT RT AT (write le s) = Some g0 -> k < length (write le s) ->
-  accepts LT RT AT (firstn k (write le s)) = Some g ->
-  TamperText.read_text (firstn k (write le s)) <> None ->
-  p_file g = p_file g0.
-Proof. exact c04_valid_reader_truncation_partial. Qed.
-Print Assumptions C04_valid_reader_truncation_partial.
+(* second part (every other offset): C04_valid_reader_truncation and
+   C04_valid_reader_truncation_filler in Props/C04ValidTextFull.v (the phase-6 statement
+   C04_valid_reader_truncation_partial assumed that the structural reader reads the prefix; that is
+   now proved: C04_valid_reader_unread_prefix) *)
 
 (* the columns the protected Parse methods read, as of this run: FileControl.Parse reads the
    entry/addenda count from characters [13, 21), EntryDetail.Parse the amount from characters
